@@ -47,8 +47,10 @@ Definition dkeys {V} (d : list (nat * V)) : list nat := map fst d.
 Definition kadd (r : list nat) (k : nat) : list nat := if mem k r then r else r ++ [k].
 Definition kupdate (r ks : list nat) : list nat := fold_left kadd ks r.
 
-(* ---- tagged values: plain value, or the list kept under the tag 'invariants' (tag 0) *)
-Inductive tval := TV (v : nat) | TInvs (l : list nat).
+(* ---- tagged values: plain value, the list kept under the tag 'invariants' (tag 0), or the
+   Python value None -- which is a DEFINED value (it shadows inherited ones; absence is the
+   [None] of [option tval], tested in the code with the private _marker sentinel) *)
+Inductive tval := TV (v : nat) | TInvs (l : list nat) | TNone.
 Definition invariants_tag : tag := 0.
 
 (* ---- world (never changes: __attrs is private and written once by __init__) and state *)
